@@ -166,30 +166,114 @@ def check(repo: Repo, run: Run) -> None:
                     okm = k_ok and v_ok and items
     run.ob("C15.J2", "json_to_cel|object recursion", okm, "object keys and values are both converted recursively", ad.loc(j2c))
     # J3 -----------------------------------------------------------------
+    # path-based: which returning path does a value of class C take, and what does that path return
+    from ..core.model import deref
+    from ..core.paths import PathWalker, flat_conds
+
+    def classes_of(node: ast.expr, fn: ast.FunctionDef) -> List[str]:
+        node = deref(ad, node, enc, fn)
+        elts = node.elts if isinstance(node, ast.Tuple) else [node]
+        out: List[str] = []
+        for e in elts:
+            e = deref(ad, e, enc, fn)
+            if isinstance(e, ast.Tuple):
+                out += classes_of(e, fn)
+            else:
+                out.append((dotted(e) or "?").split(".")[-1])
+        return out
+
+    def path_for(fn: ast.FunctionDef, param: str, cname: str):
+        """The returning paths a value whose class is exactly ``cname`` follows (isinstance literals decided
+        through the repository's class hierarchy; other literals leave the path possible)."""
+        anc = {cname} | ANCESTORS.get(cname, set())
+        out = []
+        for pth in PathWalker(ad, enc).paths(fn):
+            feasible = True
+            for t, pol in flat_conds(pth.conds):
+                if isinstance(t, ast.Call) and dotted(t.func) == "isinstance" and len(t.args) == 2 and ast.unparse(strip_cast(t.args[0])) == param:
+                    holds = bool(anc & set(classes_of(t.args[1], fn)))
+                    if holds != pol:
+                        feasible = False
+            if feasible:
+                out.append(pth)
+        return out
+
+    def loops_converting(fn: ast.FunctionDef, param: str, conv: str, need: int, items: bool) -> bool:
+        """Some loop / comprehension over ``param`` (``.items()`` for maps) applies ``conv`` to every loop variable."""
+        for n in ast.walk(fn):
+            gens = []
+            scope: List[ast.AST] = []
+            if isinstance(n, (ast.ListComp, ast.SetComp, ast.GeneratorExp, ast.DictComp)):
+                gens = [(g.target, g.iter) for g in n.generators]
+                scope = [n]
+            elif isinstance(n, ast.For):
+                gens = [(n.target, n.iter)]
+                scope = list(n.body)
+            for target, it in gens:
+                txt = ast.unparse(it)
+                if param not in txt or (items and ".items()" not in txt):
+                    continue
+                names = [x.id for x in ast.walk(target) if isinstance(x, ast.Name)]
+                if len(names) != need:
+                    continue
+                converted = set()
+                for sc in scope:
+                    for c in ast.walk(sc):
+                        if isinstance(c, ast.Call) and (dotted(c.func) or "").split(".")[-1] == conv and c.args and isinstance(strip_cast(c.args[0]), ast.Name):
+                            converted.add(strip_cast(c.args[0]).id)
+                if set(names) <= converted:
+                    return True
+        return False
+
     tp = em["to_python"]
-    s = ast.unparse(tp)
-    arms = {tuple(c): n for c, n in ladder_tests(tp, [a.arg for a in tp.args.args if a.arg != "self"][0])}
-    bool_arm = [n for c, n in arms.items() if "BoolType" in c]
-    ok = bool(bool_arm) and all(isinstance(r.value, (ast.IfExp, ast.Call, ast.Constant)) or "bool(" in ast.unparse(r) for r in bool_arm[0].body if isinstance(r, ast.Return))
-    run.ob("C15.J3", "to_python|bool", bool(bool_arm), "BoolType is replaced by a native bool (never serialised as 1/0)", ad.loc(tp))
-    run.shape("C15.J3", "to_python|list", "[CELJSONEncoder.to_python(item) for item in cel_object]" in s or "to_python(item) for item in" in s, "lists recurse through to_python", ad.loc(tp))
-    mp = [n for c, n in arms.items() if "MapType" in c]
-    okm = False
-    if mp:
-        for c in ast.walk(mp[0]):
-            if isinstance(c, ast.DictComp):
-                okm = "to_python" in ast.unparse(c.key) and "to_python" in ast.unparse(c.value)
-    run.ob("C15.J3", "to_python|map", okm, "maps recurse through to_python for keys and values", ad.loc(tp))
+    tparam = [a.arg for a in tp.args.args if a.arg != "self"][0]
+    bool_paths = [p for p in path_for(tp, tparam, "BoolType") if p.kind == "return" and p.value is not None]
+    def native_bool(v: ast.expr) -> bool:
+        v = strip_cast(v)
+        if isinstance(v, ast.IfExp):
+            return native_bool(v.body) and native_bool(v.orelse)
+        if isinstance(v, ast.Constant):
+            return isinstance(v.value, bool)
+        if isinstance(v, ast.Call):
+            return dotted(v.func) == "bool"
+        return isinstance(v, (ast.Compare, ast.BoolOp)) or (isinstance(v, ast.UnaryOp) and isinstance(v.op, ast.Not))
+    if not bool_paths:
+        run.inconclusive("C15.J3", "to_python|bool", "no returning path for a BoolType value was found")
+    else:
+        bad = [ast.unparse(p.value)[:40] for p in bool_paths if not native_bool(p.value)]
+        run.ob("C15.J3", "to_python|bool", not bad, "BoolType is replaced by a native bool (never serialised as 1/0)" if not bad else f"a BoolType value is returned as `{bad[0]}`: JSON text 1/0 or a CEL object instead of true/false", ad.loc(tp))
+    for label, need, items in (("list", 1, False), ("map", 2, True)):
+        ok = loops_converting(tp, tparam, "to_python", need, items)
+        if ok:
+            run.ob("C15.J3", f"to_python|{label}", True, f"{label}s recurse through to_python" + (" for keys and values" if items else ""), ad.loc(tp))
+        else:
+            # does the arm for this kind return the container unconverted?
+            cname = "ListType" if label == "list" else "MapType"
+            rets = [p for p in path_for(tp, tparam, cname) if p.kind == "return" and p.value is not None]
+            if rets and all(ast.unparse(strip_cast(p.value)) == tparam for p in rets):
+                run.ob("C15.J3", f"to_python|{label}", False, f"a {cname} is returned as it is: nested BoolType values are serialised as 1/0", ad.loc(tp))
+            else:
+                run.inconclusive("C15.J3", f"to_python|{label}", f"no loop over the {label} that converts every element through to_python was recognised")
     encm = em.get("encode")
-    run.ob("C15.J3", "encode", encm is not None and "to_python(cel_object)" in ast.unparse(encm), "encode() serialises to_python(value)", ad.loc(encm) if encm else str(ad.path))
+    run.shape("C15.J3", "encode", encm is not None and "to_python(cel_object)" in ast.unparse(encm), "encode() serialises to_python(value)", ad.loc(encm) if encm else str(ad.path))
     df = em["default"]
-    darms = {tuple(c): n for c, n in ladder_tests(df, [a.arg for a in df.args.args if a.arg != "self"][0])}
-    for cname, needle in (("TimestampType", "str(cel_object)"), ("DurationType", "str(cel_object)"), ("BytesType", "base64.b64encode(cel_object).decode(")):
-        arm = [n for c, n in darms.items() if cname in c]
-        ok = bool(arm) and needle in ast.unparse(arm[0].body[0])
-        run.ob("C15.J3", f"default|{cname}", ok, f"default() encodes {cname} with {needle}...", ad.loc(df))
+    dparam = [a.arg for a in df.args.args if a.arg != "self"][0]
+    for cname, want in (("TimestampType", "str"), ("DurationType", "str"), ("BytesType", "b64")):
+        rets = [p for p in path_for(df, dparam, cname) if p.kind == "return" and p.value is not None]
+        if not rets:
+            run.inconclusive("C15.J3", f"default|{cname}", "no returning path for this class was found")
+            continue
+        def good(v: ast.expr) -> bool:
+            v = strip_cast(v)
+            txt = ast.unparse(v)
+            if want == "str":
+                return isinstance(v, ast.Call) and dotted(v.func) == "str" and len(v.args) == 1 and ast.unparse(strip_cast(v.args[0])) == dparam
+            return "b64encode(" in txt and dparam in txt and ".decode(" in txt
+        bad = [ast.unparse(p.value)[:50] for p in rets if not good(p.value)]
+        run.ob("C15.J3", f"default|{cname}", not bad,
+               f"default() encodes {cname} " + (("as str(value)" if want == "str" else "as base64 text") if not bad else f"as `{bad[0]}`; expected " + ("str(value)" if want == "str" else "base64.b64encode(value).decode(..)")), ad.loc(df))
     dec = class_methods(ad.cls("CELJSONDecoder")).get("decode")
-    run.ob("C15.J3", "CELJSONDecoder.decode", dec is not None and "json_to_cel(" in ast.unparse(dec) and "super().decode(" in ast.unparse(dec),
+    run.shape("C15.J3", "CELJSONDecoder.decode", dec is not None and "json_to_cel(" in ast.unparse(dec) and "super().decode(" in ast.unparse(dec),
            "decode() = json_to_cel(json decode)", ad.loc(dec) if dec else str(ad.path))
     # J4 -----------------------------------------------------------------
     bad = memo_on_type_dispatch(repo, "adapter")
